@@ -1,4 +1,5 @@
 /* Adapter library for C18 (see idna.h, idn/api.h). */
+#include <pthread.h>
 #include <stdlib.h>
 #include <string.h>
 #include <stdio.h>
@@ -31,6 +32,12 @@ static struct verif_idn_ctx ctx_arena[CTX_ARENA];
  * (recorded at the moment they happen) instead of crashing the monitor */
 static int ctx_in_arena(idn_resconf_t c) { return c >= ctx_arena && c < ctx_arena + CTX_ARENA; }
 
+/* the monitor's own state is updated under one lock (the thread runner of C14 links this adapter too); the context's magic word
+ * is read and written *without* it on purpose: a context shared between threads by the library shows as a race on it */
+static pthread_mutex_t verif_idn_mu = PTHREAD_MUTEX_INITIALIZER;
+#define LOCK() pthread_mutex_lock(&verif_idn_mu)
+#define UNLOCK() pthread_mutex_unlock(&verif_idn_mu)
+
 /* fault plan for the online monitor: the k-th idn_resconf_create from now fails (0 = none) */
 long verif_idn_fail_create_countdown = 0, verif_idn_create_failures = 0;
 void verif_idn_plan_create_failure(long k);
@@ -41,26 +48,31 @@ idn_result_t idn_resconf_initialize(void) { return idn_success; }
 idn_result_t idn_resconf_create(idn_resconf_t *ctx)
 {
     struct verif_idn_ctx *c;
+    LOCK();
     if (verif_idn_fail_create_countdown > 0 && --verif_idn_fail_create_countdown == 0) {
         verif_idn_create_failures++;
+        UNLOCK();
         return IDN2_MALLOC;                  /* *ctx is left untouched, as a failing constructor would */
     }
     if (verif_idn_creates >= CTX_ARENA) { fprintf(stderr, "adapter: context arena exhausted\n"); abort(); }
     c = &ctx_arena[verif_idn_creates];
-    c->magic = CTX_MAGIC_LIVE;
     c->id = ++verif_idn_creates;
     verif_idn_live++;
+    UNLOCK();
+    c->magic = CTX_MAGIC_LIVE;
     *ctx = c;
     return idn_success;
 }
 
 void idn_resconf_destroy(idn_resconf_t ctx)
 {
-    if (ctx == NULL || !ctx_in_arena(ctx) || (ctx->magic != CTX_MAGIC_LIVE && ctx->magic != CTX_MAGIC_DEAD)) { verif_idn_bad_use++; return; }
-    if (ctx->magic == CTX_MAGIC_DEAD) { verif_idn_double_destroy++; return; }
+    if (ctx == NULL || !ctx_in_arena(ctx) || (ctx->magic != CTX_MAGIC_LIVE && ctx->magic != CTX_MAGIC_DEAD)) { LOCK(); verif_idn_bad_use++; UNLOCK(); return; }
+    if (ctx->magic == CTX_MAGIC_DEAD) { LOCK(); verif_idn_double_destroy++; UNLOCK(); return; }
     ctx->magic = CTX_MAGIC_DEAD;
+    LOCK();
     verif_idn_destroys++;
     verif_idn_live--;
+    UNLOCK();
 }
 
 idn_result_t idn_res_encodename(idn_resconf_t ctx, idn_action_t actions, const char *from, char *to, size_t tolen)
@@ -68,9 +80,12 @@ idn_result_t idn_res_encodename(idn_resconf_t ctx, idn_action_t actions, const c
     char *out = NULL;
     int rc;
     /* the real library interprets `actions`: anything but the documented encode action sets is a caller bug */
+    int bad = (ctx == NULL || !ctx_in_arena(ctx) || ctx->magic != CTX_MAGIC_LIVE);
+    LOCK();
     if (actions != IDN_ENCODE_REGIST && actions != IDN_ENCODE_LOOKUP) verif_idn_bad_actions++;
     verif_idn_encodes++;
-    if (ctx == NULL || !ctx_in_arena(ctx) || ctx->magic != CTX_MAGIC_LIVE) verif_idn_bad_use++;
+    if (bad) verif_idn_bad_use++;
+    UNLOCK();
     rc = idn2_to_ascii_8z(from, &out, IDN2_NONTRANSITIONAL);
     if (rc != IDN2_OK) { if (out) idn2_free(out); return rc; }
     if (strlen(out) + 1 > tolen) { idn2_free(out); return IDN2_TOO_BIG_DOMAIN; }
